@@ -2,13 +2,18 @@
 (* C30, direction code -> spec: encodings produced by the REAL marshal that differ from the
    bytes the specification's Layout demands (for example another extension order) are judged
    by the specification's parser: the real bytes must parse, under the grammar of the type,
-   to exactly the value that was marshalled.  One line "REJECT i" per rejected record.    *)
-EXTENDS TLSWire, Json
+   to exactly the value that was marshalled.  One JSON line {reject: i, fields: [...]} per rejected record.    *)
+EXTENDS TLSWire, Json, SequencesExt
 
 CONSTANTS In
 
 Obs == ndJsonDeserialize(In)
 Good(o) == o.t \in Types /\ Parse(o.t, o.bytes) = [ok |-> TRUE, v |-> o.v]
-ASSUME \A i \in 1..Len(Obs) : Good(Obs[i]) \/ PrintT(<<"REJECT", i>>)
+(* which fields the specification reads differently from the marshalled value ("" = the bytes
+   are not an encoding of the type at all) - only to name the finding precisely *)
+Differing(o) == IF o.t \notin Types \/ ~Parse(o.t, o.bytes).ok THEN {""}
+                ELSE LET p == Parse(o.t, o.bytes).v IN
+                     {f \in DOMAIN p : f \notin DOMAIN o.v \/ p[f] # o.v[f]}
+ASSUME \A i \in 1..Len(Obs) : Good(Obs[i]) \/ PrintT(ToJson([reject |-> i, fields |-> SetToSeq(Differing(Obs[i]))]))
 ASSUME PrintT(<<"JUDGED", Len(Obs)>>)
 =============================================================================
